@@ -7,16 +7,23 @@ CLAIMED = True
 MODEL_GROUP = "browser"
 THEOREM_FILE = "Props/C04.v"
 LEVEL_TEXT = ("Coq theorems about the model of the cache + browser logic. History level (all histories in which time does "
-              "not run backwards): C04_followup_schedule_invariant - after every iteration every follow-up retransmission is "
+              "not run backwards): C04_resolved_only_after_found_partial - clause F of chk_C04 in the standard shape for known "
+              "findings: outside the executable class known_browse_expiring (a browse call executed while a cached PTR "
+              "record of the type with TTL > 1 is in its last second) the checker viol_C04 run on the model's trace never "
+              "reports F04_order, i.e. every ServiceResolved is preceded by ServiceFound of that instance on that channel "
+              "(invariant FI: every cached PTR entry of a browsed type with TTL > 1 is in the checker's found list under "
+              "the type's channel; carried through every step of the iteration, C04_iteration_resolved_only_after_found); "
+              "C04_followup_schedule_invariant - after every iteration every follow-up retransmission is "
               "try 1..3 and due within the next 500 ms; C04_spec_cache_is_model_cache - the cache chk_C04 judges against is "
               "the model's cache. Per response message, for every reachable state outside the executable classes "
               "known_ptr_variant / known_srv_targets: C04_completing_response_resolves_partial - a message that leaves an "
               "instance of a browsed type complete and cached a new/revived record of it yields exactly one "
               "ServiceResolved for it in that handle_response; plus the step theorems (ServiceFound for a new PTR, "
               "follow-up chain +500 ms x 3, (instance, ANY) then (host, A/AAAA), new round after the chain is over). "
-              "The universal statement chk_C04 = true is REFUTED for the faithful model in the three classes that stay "
+              "The universal statement chk_C04 = true is REFUTED for the faithful model in the four classes that stay "
               "as known findings (one vm_compute witness each: dotted label, record refreshed in its last second, second "
-              "SRV target). Model tied to the Rust daemon by the K6 simulation (model trace = projected implementation "
+              "SRV target, browse over an expiring PTR - the last found by the proof of clause F in round 5 and confirmed on "
+              "the daemon). Model tied to the Rust daemon by the K6 simulation (model trace = projected implementation "
               "trace); the extracted viol_C04 runs on the implementation's events, questions and requested wake-ups")
 TECHNIQUE = ("machine-checked proof in Coq (component theorems, refutation witnesses by vm_compute) + model/implementation "
              "correspondence on the simulated daemon + history-level monitor")
@@ -27,12 +34,17 @@ RULE = ("all partitions/orders/duplications of an instance's record set (PTR, SR
         "A/AAAA answers arriving before, between, after the follow-up questions or never, PTR expiry and re-announcement; "
         "lifecycle histories (updates, goodbyes, restarts, stop/re-browse, verify); instance labels with spaces, "
         "backslash, non-ASCII, dots (known finding), hosts whose case differs between SRV target and address owner "
-        "(repaired: must resolve), instances under type and subtype PTR; timer-exact and late schedules; non-trivial = at least one event or follow-up question")
+        "(repaired: must resolve), instances under type and subtype PTR; browse started over a cached PTR that is about to "
+        "expire (cached while the type was not browsed: additional section, or beside a browsed subtype's PTR); timer-exact and late schedules; non-trivial = at least one event or follow-up question")
 TRUSTED = bc.TRUSTED_COMMON
-PARTIAL = ("History-level completeness `wf_history h -> ~Known_C04 h -> chk_C04 (run_history h) = true` is NOT a theorem: "
-           "proved are its per-message core (C04_completing_response_resolves_partial, exactly one ServiceResolved) and the "
-           "follow-up schedule invariant over all histories; missing is an invariant relating the checker's bookkeeping "
-           "(found/up per channel, chained follow-up obligations, order of events inside an iteration) to the model state. "
+PARTIAL = ("History-level completeness `wf_history h -> ~Known_C04 h -> chk_C04 (run_history h) = true` is NOT a theorem. "
+           "Of viol_C04's failure kinds F04_order (clause F: ServiceResolved only after ServiceFound on that channel) is "
+           "excluded over all histories outside the class known_browse_expiring (C04_resolved_only_after_found_partial). "
+           "For F04_complete the per-message core is proved (C04_completing_response_resolves_partial, exactly one "
+           "ServiceResolved), for the follow-up clauses the schedule invariant over all histories and the step theorems; "
+           "missing for F04_complete / F04_followup / F04_wake / F04_many / F04_labels at history level is an invariant "
+           "relating the checker's up list and chained follow-up obligations (due times, satisfied-by-question, "
+           "stale-after-new-record) to the model's pending set and retransmission queue. "
            "Outside the known classes the statement is checked by the monitor on model and implementation for every "
            "generated history. 'At least one address in the interface's subnet' is not used by the code and not required. "
            "Requested wake-ups are checked against the monitor's due times, the model does not compute timers.")
